@@ -111,6 +111,33 @@ impl Script for C02Script {
             env.warnings = (0..n).map(|k| "w".repeat(len + k)).collect();
             w.probe("big_response");
         }
+        // The answer to a request whose caller goes away: sometimes it carries, in a custom
+        // payload nobody asked for, 6..40 KB made of copies of a complete, well-formed
+        // RESULT/Void frame addressed to the stream of ANOTHER, live request. A client that
+        // reads the response it no longer needs in any other way than frame by frame must
+        // not end up parsing the inside of it.
+        if rq.marker.map(|m| m & F_CANCEL != 0 && m & F_HOLDALL == 0).unwrap_or(false)
+            && !matches!(req, Request::Prepare { .. })
+            && w.conns[rq.conn].cql.compression.is_none()
+            && tape::chance("c02:orphan_payload", 1, 3)
+        {
+            let live = w.conns[rq.conn]
+                .cql
+                .outstanding_markers
+                .iter()
+                .find(|(s, m)| **s != rq.stream && **m & (F_CANCEL | F_HOLDALL) == 0)
+                .map(|(s, _)| *s);
+            if let Some(s) = live {
+                let tile = crate::wire::encode_response(s, crate::wire::OP_RESULT, &1i32.to_be_bytes(), &crate::wire::Envelope::default(), None);
+                let copies = tape::range("c02:orphan_payload_len", 6_000, 40_000) as usize / tile.len();
+                let mut pad = Vec::with_capacity(copies * tile.len());
+                for _ in 0..copies {
+                    pad.extend_from_slice(&tile);
+                }
+                env.custom_payload.push(("pad".into(), pad));
+                w.probe("abandoned_request_answered_with_embedded_frames");
+            }
+        }
         env
     }
     fn as_any(&mut self) -> &mut dyn Any {
